@@ -903,6 +903,13 @@ pub fn cases(seed: u64, n_random: usize, resource_prefixes: &[usize]) -> Vec<Cas
         let src_mode = if native { target } else { 0 };
         let mut cfg = GenCfg::small(src_mode);
         cfg.max_objects = *rng.pick(&[3, 5, 8, 12]);
+        // a stream of medium-sized maps (the bookkeeping at sizes 0–12 is covered exhaustively by
+        // the small stream; this one is for effects that need many objects / long histories)
+        // (prepare() is quadratic in the map size: keep the stream thin)
+        if i % 40 == 39 {
+            cfg.max_objects = if n_random > 10_000 { *rng.pick(&[40, 120, 300]) } else { *rng.pick(&[40, 120]) };
+            cfg.min_objects = cfg.max_objects / 2;
+        }
         cfg.allow_negative_start = rng.chance(1, 5);
         cfg.long_gaps = rng.chance(1, 6);
         cfg.dense = rng.chance(1, 6);
